@@ -495,6 +495,8 @@ inductive Val where
   | party (d : Dict PKey)
   | grouped (d : List (PKey × Dict Cand))
   | nested (d : List (Nat × Dict Cand))
+  | nestedR (d : List (Nat × RProfile))     -- constituency -> ranked votes ("votes of any type")
+  | nestedA (d : List (Nat × AProfile))     -- constituency -> approval votes
   | districts (d : Dict Nat)
   | deep (t : NDict Cand)
 
@@ -558,6 +560,10 @@ def applyConv : Conv → Val → Except Err Val
     | none => typeMismatch
   | .groupByParty aff ind, .simple d => (groupByParty (affOf aff) ind d).map Val.grouped
   | .voteTotals, .nested d => .ok (.simple (voteTotals d))
+  | .voteTotals, .nestedR d => .ok (.ranked (voteTotals d))
+  | .voteTotals, .nestedA d => .ok (.approval (voteTotals d))
+  | .constituencyTotals, .nestedR d => .ok (.districts (constituencyTotals d))
+  | .constituencyTotals, .nestedA d => .ok (.districts (constituencyTotals d))
   | .constituencyTotals, .nested d => .ok (.districts (constituencyTotals d))
   | .subsetted 0 s, .simple d => .ok (.simple (subsetted (subsetSimple s) d))
   | .subsetted 1 s, .approval d => .ok (.approval (subsetted (subsetApproval s) d))
